@@ -19,7 +19,7 @@ META = {
     "engine": "model-monitor",
     "technique": "runtime monitor: reference conditional-inclusion/macro model (cross-validated against the real cpp on every case) compared with the hooked preprocess_file() regions, macro table and expanded lines, and with documentSymbol at the protocol level",
     "text": "Conditional skeletons (systematic family: chain shapes x condition catalogue x all subsets of initial definitions, enumerated completely; plus random skeletons up to 40 directives / nesting 4 over four names with interleaved #undef/#define) and macro-use files (object- and function-like macros whose bodies contain backslashes, quotes and regex metacharacters) are preprocessed and indexed by the real code; active marker set, macro table at EOF, outline markers and expanded lines must equal the reference model's. The model is checked against cpp on each case.",
-    "note": "trusted: the reference model + GNU cpp as its cross-check; stated restrictions: macro bodies mention no other macro, no redefinition without #undef, body-less macros are not evaluated in #if, uses are outside character literals, function-like invocations have blank-free arguments without nested commas, one invocation per macro per line and no ')' after it",
+    "note": "trusted: the reference model + GNU cpp as its cross-check; stated restrictions: macro bodies mention no other macro, body-less macros are not evaluated in #if, uses are outside character literals, function-like invocations have blank-free arguments without nested commas, one invocation per macro per line and no ')' after it",
 }
 RULE = ("(skeleton, initial definitions) pairs; systematic: shapes {if, if-else, if-elif, if-elif-else, if-elif-elif-else, nested x2} x conditions from a 40-entry "
         "catalogue over names A,B x all 9 valued subsets of {A,B}; random: 3-40 directives, nesting <=4, names A-D, values 0-3, #ifdef/#ifndef/#if/#elif, "
@@ -131,11 +131,13 @@ def random_skeleton(rng):
             elif k < 0.45:
                 b.d("#ifndef " + nm)
             else:
-                b.d(rng.choice(["#if ", "#if ", "# if ", "  #if "]) + rand_cond(rng))
+                c_ = rand_cond(rng)
+                b.d(rng.choice(["#if " + c_, "#if " + c_, "# if " + c_, "  #if " + c_, "#if(" + c_ + ")", "#if!(" + c_ + ")", "# if (" + c_ + ")"]))
             depth += 1
             state.append(False)
         elif r < 0.42 and depth > 0 and not state[-1]:
-            b.d("#elif " + rand_cond(rng))
+            c_ = rand_cond(rng)
+            b.d(rng.choice(["#elif " + c_, "#elif " + c_, "#elif(" + c_ + ")", "# elif !(" + c_ + ")"]))
         elif r < 0.52 and depth > 0 and not state[-1]:
             b.d("#else")
             state[-1] = True
@@ -145,9 +147,10 @@ def random_skeleton(rng):
             state.pop()
         elif r < 0.8:
             nm = rng.choice(NAMES)
-            b.d("#undef " + nm)
+            if rng.random() < 0.7:
+                b.d("#undef " + nm)
             if rng.random() < 0.8:
-                b.d(f"#define {nm} {rng.randint(0, 3)}")
+                b.d(f"#define {nm} {rng.randint(0, 3)}")  # without the #undef this redefines the name: the new value counts (cpp warns only)
         else:
             pass
         b.mark()
